@@ -194,7 +194,7 @@ func (rn *runner) faultScenarios(pool *pool) {
 		sort.Ints(steps)
 		for _, s := range steps {
 			for k := 0; k < info.recCalls[s]; k++ {
-				for _, out := range sim.AllFaults {
+				for _, out := range sim.EnumFaults {
 					f := &scenFault{step: s, k: k, out: out, whInv: -1}
 					name := fmt.Sprintf("%s/s%d/k%d/%s", base, s, k, out)
 					if !rn.c.Want(name) {
@@ -206,7 +206,7 @@ func (rn *runner) faultScenarios(pool *pool) {
 		}
 		for inv, n := range info.invCalls {
 			for idx := 0; idx < n; idx++ {
-				for _, out := range []sim.Outcome{sim.Conflict, sim.ServerError, sim.Timeout, sim.ErrorAfter} {
+				for _, out := range []sim.Outcome{sim.Conflict, sim.ServerError, sim.Timeout, sim.ErrorAfter, sim.NotServed, sim.Unavailable} {
 					f := &scenFault{step: -1, whInv: inv, whIdx: idx, whOut: out}
 					name := fmt.Sprintf("%s/wh%d/k%d/%s", base, inv, idx, out)
 					if !rn.c.Want(name) {
